@@ -2574,7 +2574,8 @@ impl XmlElement {
         }
 
         for namespace in self.in_scope_namespace()?.iter() {
-            if prefix == namespace.borrow().prefix().unwrap_or_default() {
+            // the default namespace is looked up under the pseudo-prefix "xmlns"
+            if prefix == namespace.borrow().prefix().unwrap_or("xmlns") {
                 return Ok(Some(NamespaceUri::from(&namespace)));
             }
         }
